@@ -87,6 +87,17 @@ func c19run(c *evid.Ctx, r *gen.Rand, run int) {
 	if atConstruction {
 		cfg.IPBlocklist = bl
 	}
+	// An application hook that lets every query through must not change any of this: half of the
+	// passive nodes and a third of the others run with one.
+	var hookCalls atomic.Int64
+	defer func() { c.Count("OnQuery hook calls (hook returned true)", int(hookCalls.Load())) }()
+	if passive && (run/4)%2 == 0 || !passive && run%3 == 1 {
+		cfg.OnQuery = func(m *krpc.Msg, a net.Addr) bool {
+			hookCalls.Add(1)
+			return true
+		}
+		c.Count("nodes run with an OnQuery hook that lets everything through (passive="+fmt.Sprint(passive)+")", 1)
+	}
 	// blocked hosts: single addresses (v4, v6, mapped) and a /16
 	var X []*net.UDPAddr
 	mk := func(form int) *net.UDPAddr {
